@@ -400,10 +400,10 @@ class MembersType(Type):
         # Encode extension additions.
         presence_bits = 0
         addition_encoders = []
+        number_of_additions = len(self.additions)
 
         try:
-            for addition in self.additions:
-                presence_bits <<= 1
+            for index, addition in enumerate(self.additions):
                 addition_encoder = Encoder()
                 self.encode_member(addition,
                                    data,
@@ -412,7 +412,7 @@ class MembersType(Type):
 
                 if addition_encoder.number_of_bits > 0 or addition.name in data:
                     addition_encoders.append(addition_encoder)
-                    presence_bits |= 1
+                    presence_bits |= (1 << (number_of_additions - index - 1))
         except EncodeError:
             pass
 
